@@ -519,6 +519,10 @@ func c19Verdicts(a *ChildArgs, r *rand.Rand, avoid map[string]bool, dir string) 
 	for _, c := range [][]string{{"validate"}, {"format"}, {"format", "--check"}, {"lint"}} {
 		check(strings.Join(c, "")+"-missing-input", append(append(append([]string{}, c...), names...), "no-such-input.sql"), &no, judged)
 	}
+	// ... whatever the missing path is called (words the commands use in their own messages)
+	for _, odd := range []string{"file is empty/x.sql", "invalid file path.sql", "no such file or directory.sql", "security validation failed/q.sql"} {
+		check("validate-missing-input-odd-name", append(append([]string{"validate"}, names...), odd), &no, judged)
+	}
 	// the same inputs found by recursion: copies below a directory, two levels deep
 	rdir := filepath.Join(dir, "rdir")
 	os.MkdirAll(filepath.Join(rdir, "deep", "deeper"), 0o755)
@@ -532,6 +536,54 @@ func c19Verdicts(a *ChildArgs, r *rand.Rand, avoid map[string]bool, dir string) 
 	check("lint-recursive-only-missing-dir", []string{"lint", "-r", "no-such-dir"}, &no, judged)
 	check("validate-recursive-missing-dir", []string{"validate", "-r", "rdir", "no-such-dir"}, &no, judged)
 	os.RemoveAll(rdir)
+	// machine-readable output of parse: the exit status still says whether the library accepts the input
+	for _, f := range judged[:1] {
+		ok := f.accepted
+		check("parse-json", []string{"parse", "-f", "json", f.arg}, &ok, judged)
+	}
+	// lint --auto-fix on copies: whatever it repaired, a file that still holds failing findings afterwards is not a
+	// clean run
+	fdir := filepath.Join(dir, "fixdir")
+	os.MkdirAll(fdir, 0o755)
+	var fargs []string
+	for i, f := range judged {
+		n := fmt.Sprintf("fx%d.sql", i)
+		os.WriteFile(filepath.Join(fdir, n), []byte(f.content), 0o644)
+		fargs = append(fargs, filepath.Join("fixdir", n))
+	}
+	for _, failOnWarn := range []bool{false, true} {
+		for i, f := range judged {
+			os.WriteFile(filepath.Join(fdir, fmt.Sprintf("fx%d.sql", i)), []byte(f.content), 0o644)
+		}
+		args := []string{"lint", "--auto-fix"}
+		if failOnWarn {
+			args = append(args, "--fail-on-warn")
+		}
+		run := c19Exec(dir, nil, append(args, fargs...)...)
+		if run.timedOut || run.rc > 1 || run.rc < 0 {
+			continue
+		}
+		a.Rec.Count("evaluations", 1)
+		remaining := 0
+		var still []string
+		for i := range judged {
+			b, err := os.ReadFile(filepath.Join(fdir, fmt.Sprintf("fx%d.sql", i)))
+			if err != nil {
+				continue
+			}
+			for _, v := range l.LintString(string(b), "f.sql").Violations {
+				if v.Severity == linter.SeverityError || (failOnWarn && v.Severity == linter.SeverityWarning) {
+					remaining++
+					still = append(still, fmt.Sprintf("fx%d.sql:%s", i, v.Rule))
+				}
+			}
+		}
+		if remaining > 0 && run.rc == 0 {
+			a.Rec.Viol(fmt.Sprintf("C19/verdicts/lint-auto-fix-fail-on-warn=%v/exit-0-findings-remain", failOnWarn), "commands exit with status zero exactly when ... no failing-severity finding exists",
+				fmt.Sprintf("exit status 0 although %d failing-severity findings remain in the files after the rewrite: %v", remaining, still), map[string]interface{}{"files": witFiles, "args": args, "stdout": trunc(run.out, 600)})
+		}
+	}
+	os.RemoveAll(fdir)
 }
 
 // c19Streams: the same verdicts when the input arrives on stdin or as an inline argument, and for odd option values.
@@ -565,7 +617,7 @@ func c19Streams(a *ChildArgs, r *rand.Rand, avoid map[string]bool, dir string) {
 	for _, c := range []struct {
 		label string
 		args  []string
-	}{{"validate-stdin", []string{"validate"}}, {"validate-stdin-dash", []string{"validate", "-"}}, {"format-stdin", []string{"format"}}, {"parse-stdin", []string{"parse"}}, {"validate-stdin-json", []string{"validate", "--output-format", "json"}}} {
+	}{{"validate-stdin", []string{"validate"}}, {"validate-stdin-dash", []string{"validate", "-"}}, {"format-stdin", []string{"format"}}, {"parse-stdin", []string{"parse"}}, {"validate-stdin-json", []string{"validate", "--output-format", "json"}}, {"parse-stdin-json", []string{"parse", "-f", "json"}}} {
 		judge(c.label, c19ExecIn(dir, in, nil, c.args...), f.accepted, c.args)
 	}
 	// a report about stdin names stdin, not a scratch file the command made for itself
@@ -624,8 +676,8 @@ func c19Streams(a *ChildArgs, r *rand.Rand, avoid map[string]bool, dir string) {
 	}
 	// inline argument (the CLI only takes text that looks like SQL: statement keyword first, no newline games)
 	if (first == "SELECT" || first == "INSERT" || first == "UPDATE" || first == "DELETE" || first == "CREATE" || first == "WITH") && !strings.ContainsAny(f.content, "\n\r") && len(f.content) < 4000 {
-		for _, c := range [][]string{{"validate"}, {"parse"}, {"format"}} {
-			judge(c[0]+"-inline", c19Exec(dir, nil, append(c, f.content)...), f.accepted, append(c, "<inline>"))
+		for _, c := range [][]string{{"validate"}, {"parse"}, {"format"}, {"parse", "-f", "json"}} {
+			judge(strings.Join(c, "")+"-inline", c19Exec(dir, nil, append(append([]string{}, c...), f.content)...), f.accepted, append(append([]string{}, c...), "<inline>"))
 		}
 		if f.accepted {
 			// --check on inline text: exit status says whether the text is already formatted
